@@ -1139,6 +1139,11 @@ def task_unit_sweep(ctx):
 
 
 def tasks(tier):
+    from .. import depth
+    return _tasks(tier) + [("little-stack", depth.task, dict(prop=PROPERTY))]
+
+
+def _tasks(tier):
     if tier == "quick":
         return [("strings-a", task_strings, dict(n=330, depth=1, width=6)),
                 ("strings-b", task_strings, dict(n=360, depth=2, width=4)),
@@ -1166,6 +1171,9 @@ def tasks(tier):
 
 
 def replay(ctx, case):
+    if isinstance(case, dict) and case.get("kind") == "little-stack":
+        from .. import depth
+        return depth.check(ctx, case)
     if case["kind"] == "string":
         check_string(ctx, case)
     elif case["kind"] == "series":
